@@ -6,20 +6,6 @@ import (
 	"golang.org/x/tools/go/ssa"
 )
 
-type loopInfo struct{}
-
-type loopCtx struct {
-	justEntered bool
-}
-
-func (x *Exec) enterBlock(fr *Frame, st *State, b *ssa.BasicBlock) ([]Outcome, bool, *State) {
-	fr.visits[b]++
-	if fr.visits[b] > 64 {
-		return abortOut(st, "loop without invariant in %s (block %d revisited)", fr.fn, b.Index), true, nil
-	}
-	return nil, false, nil
-}
-
 func (x *Exec) makeMap(st *State, t types.Type) *Term {
 	return x.c.Fresh("map", x.c.MapH)
 }
